@@ -139,6 +139,7 @@ func (p *BlockParser) NextBlock() (*RootBlock, error) {
 		lineStart := p.i
 		p.readline()
 		lp.reset(lineStart, p.buf[:p.i:p.i])
+		verifYield("block-line")
 	}
 }
 
